@@ -28,11 +28,15 @@ deriving Repr, Inhabited
 /-- the namespace dict (insertion-ordered; keys distinct) -/
 abbrev Ns := List (Str × Val)
 
-def Ns.get? (ns : Ns) (k : Str) : Option Val := (ns.find? (fun p => p.1 = k)).map (·.2)
-def Ns.has (ns : Ns) (k : Str) : Bool := ns.any (fun p => p.1 = k)
-/-- `namespace[k] = v` -/
-def Ns.set (ns : Ns) (k : Str) (v : Val) : Ns :=
-  if ns.has k then ns.map (fun p => if p.1 = k then (k, v) else p) else ns ++ [(k, v)]
+def Ns.get? : Ns → Str → Option Val
+  | [], _ => none
+  | (k', v) :: rest, k => if k' = k then some v else Ns.get? rest k
+/-- `k in namespace` -/
+def Ns.has (ns : Ns) (k : Str) : Bool := (ns.get? k).isSome
+/-- `namespace[k] = v` (an existing key keeps its place) -/
+def Ns.set : Ns → Str → Val → Ns
+  | [], k, v => [(k, v)]
+  | (k', v') :: rest, k, v => if k' = k then (k, v) :: rest else (k', v') :: Ns.set rest k v
 
 /-- tree of `QToken` objects -/
 inductive Tok where
